@@ -135,17 +135,24 @@ func (d *DFPNSolver) Prove(g *tak.Position) (ProofResult, DFPNStats) {
 	})
 	d.stats.Work = work
 	duration := time.Since(start)
+	// The numbers are relative to the side to move at each node: phi == 0
+	// at the root means that the side to move there gets its way. Report
+	// from the attacker's point of view.
+	proof, disproof := entry.bounds.phi, entry.bounds.delta
+	if d.attacker != g.ToMove() {
+		proof, disproof = disproof, proof
+	}
 	var result Evaluation = EvalUnknown
-	if entry.bounds.phi == 0 {
+	if proof == 0 {
 		result = EvalTrue
-	} else if entry.bounds.delta == 0 {
+	} else if disproof == 0 {
 		result = EvalFalse
 	}
 	return ProofResult{
 		Result:   result,
 		Move:     entry.pv,
-		Proof:    entry.bounds.phi,
-		Disproof: entry.bounds.delta,
+		Proof:    proof,
+		Disproof: disproof,
 		Duration: duration,
 	}, d.stats
 }
